@@ -59,6 +59,7 @@ type gen struct {
 	oneBucket bool
 	paged   bool
 	focus   map[string]string
+	plain   bool // pagemerge family: puts without TTL and deletes of existing keys only, with merges
 	flip    bool // the second half of a twin: every bucket choice is moved to the next bucket
 	images  int
 	seed0   int64
@@ -155,6 +156,16 @@ func (g *gen) kvWrite(t *hx.Tx) {
 	b := g.bpick("kvb", g.u.KvBuckets)
 	k := []byte(g.fpick("kvk", kvKeys))
 	now := uint64(time.Now().Unix())
+	if g.plain {
+		// only operations that keep the tree's count of valid keys exact: a put
+		// without TTL, or the delete of a key that is there
+		if _, err := t.T.Get(b, k); err == nil && g.r.Intn(3) == 0 {
+			t.Delete(b, k)
+		} else {
+			t.Put(b, k, g.val(), 0)
+		}
+		return
+	}
 	switch g.r.Intn(10) {
 	case 0, 1:
 		t.Delete(b, k)
@@ -283,7 +294,7 @@ func (g *gen) histKV() {
 	dir := fmt.Sprintf("%s/db-%d", g.c.Tmp, g.hist)
 	os.RemoveAll(dir)
 	g.u = &hx.Universe{KvBuckets: []string{"b1", "b2", "bk"}}
-	if mode == nutsdb.HintBPTSparseIdxMode || g.oneBucket {
+	if mode == nutsdb.HintBPTSparseIdxMode || g.oneBucket || g.plain {
 		g.u.KvBuckets = []string{"b1"}
 	}
 	g.newSess(dir, mode, rw, seg)
@@ -309,7 +320,10 @@ func (g *gen) histKV() {
 		if g.r.Intn(6) == 0 {
 			g.s.Obs()
 		}
-		if g.r.Intn(12) == 0 {
+		if g.plain && mode != nutsdb.HintBPTSparseIdxMode && g.r.Intn(8) == 0 {
+			g.s.MergeObs(dir + "-shadow")
+		}
+		if !g.plain && g.r.Intn(12) == 0 {
 			g.s.Close()
 			if g.s.Open() != nil {
 				return
@@ -1387,7 +1401,8 @@ func main() {
 			g.histConc(concOpts{ndb: 1, ngor: 2, ntx: c.Steps, merger: true, gated: true})
 		case "concbackup": // C18: backups while the others write
 			g.histConc(concOpts{ndb: 1 + g.r.Intn(2), ngor: 3 + g.r.Intn(6), ntx: c.Steps, backup: true})
-		case "page": // C03: paged scans over a larger key universe (several B+ tree leaves)
+		case "page", "pagemerge": // C03: paged scans over a larger key universe (several B+ tree leaves); pagemerge: with merges, no TTL
+			g.plain = c.Family == "pagemerge"
 			if !g.paged {
 				g.paged = true
 				for i := 0; i < 14; i++ {
